@@ -4,6 +4,10 @@ import json, os, subprocess
 VERIF = os.path.dirname(os.path.dirname(os.path.abspath(__file__)))
 TB = 'trusted: Lean 4.33 kernel, axioms propext/Classical.choice/Quot.sound (audited each run), tools/translate.py, harness + compiled driver; '
 CLAIMS = {
+ 'C01': dict(
+    text='Lean 4 theorems: the router specification greedyChain answers only with a matching, most-static route (hit_sound), misses when nothing matches (miss), is independent of registration order (order_independent); the registration trie refines it at segment level (trie_refines) and the compressed, sorted final router refines the trie at byte level with boundary-exact static patterns (bytes_refine); mounts flatten (mounts_flatten). Tied to the code by a differential run of application trees assembled at run time (hook H1) in two registration orders against the executable model (which also carries the fang-scope-dependent compression of the repaired code) and against the relation the property states, evaluated independently on the flat route table',
+    note=TB + 'the executable model used for the correspondence (Fangs.build/finalize/searchP, with fang scopes) is checked equal to the proved greedyChain on every run for applications without fangs; with fang scopes the compression differs and the outcome is judged by the property relation; OPTIONS handled in C14',
+    technique='Lean 4 proof (refinement: bytes -> trie -> flat-table spec; permutation invariance) + model/implementation correspondence'),
  'C02': dict(
     text='Lean 4 theorems over the model of Request::read (parse_encode: every well-formed request is accepted and read back as exactly what its bytes denote; parse_never_panics: every byte string is answered ok / error status / close), tied to the code by regenerated header and method tables and a differential run of the real parser (hook H2) against the model and an independent grammar-based reader, with every accessor called under catch_unwind',
     note=TB + 'modelled not verified: byte_reader primitives, from_utf8, from_utf8_lossy, percent_decode (hand models validated by the correspondence run); head larger than the first read is C06',
@@ -12,6 +16,10 @@ CLAIMS = {
     text='Lean 4 theorems over the model of Response (send_exact: bytes written = bytes reserved for every operation history; size invariant), tied to the code by regenerated header/status tables and a differential run of the real Response against the model and an independent HTTP reader',
     note=TB + 'modelled not verified: Content::Stream/WebSocket arms of send (C17 covers Stream)',
     technique='Lean 4 proof (invariant over operation histories) + model/implementation correspondence'),
+ 'C04': dict(
+    text='Lean 4 theorems over the fang model (onion_order: the fold of into_proc_with is the onion of the reversed list; early_answer_cuts: a fang that answers early cuts everything inside it and keeps the way out of the outer ones; mounts_flatten); the scope statement (fangs of exactly the applications whose mount prefix contains the path, hit or 404, any method) is decided on every run against a specification read off the configuration alone, on generated trees satisfying the side condition, and was exhaustively tested on 53,334 small configurations; differential run with tracing fangs (app-level tuples of 0-8 fangs, local fangs, an early-answering fang) against the executable model',
+    note=TB + 'ScopeStatement is stated in Lean (Fangs.lean) but its proof is not complete: for scope the assurance is model/impl correspondence + the independent configuration-level spec; tuple nesting of Fangs::build and local-fang wrapping are validated by the traces',
+    technique='Lean 4 proof (onion order, early answer) + model/implementation correspondence for scope'),
  'C09': dict(
     text='Lean 4 theorem roundtrip_struct (reader after writer = identity and consumes all text, for every struct type and every well-typed unambiguous value, with the text primitives proved rather than assumed) and the percent-encoding round trip; tied to the code by a differential run of the real to_string / from_bytes / QueryParams::iter against the writer and reader models, and of decoded texts against an independent RFC 3986 pair reader',
     note=TB + 'modelled not verified: serde derive visitor protocol, str::parse, from_utf8, percent_encoding (hand models; PrimsOK proved for them); floats outside the catalogue; known finding KF-C09-empty-ambiguity',
